@@ -6,3 +6,4 @@ pub mod c03;
 pub mod c04;
 pub mod c05;
 pub mod worst;
+pub mod c06;
